@@ -188,6 +188,17 @@ impl From<cli::Opt> for Config {
         let mut styles = parse_styles::parse_styles(&opt);
         let styles_map = parse_styles::parse_styles_map(&opt);
 
+        // --color-only must emit lines in 1-1 correspondence with its input: the *-decoration-style
+        // options have been reset for that (options::set), but a decoration can also be asked for
+        // by an attribute of the style string itself (e.g. --file-style 'red box').
+        if opt.color_only {
+            for name in ["commit-style", "file-style", "hunk-header-style"] {
+                if let Some(style) = styles.get_mut(name) {
+                    style.decoration_style = crate::style::DecorationStyle::NoDecoration;
+                }
+            }
+        }
+
         let wrap_config = WrapConfig::from_opt(&opt, styles["inline-hint-style"]);
 
         let max_line_distance_for_naively_paired_lines = opt
